@@ -11,6 +11,8 @@ CONSTANTS
   Filters <- FNone
   Order <- OrderClearFirst
   CompileMode = "stated"
+  Inners <- InnersNone
+  ScopeMode = "stated"
 INIT InitCover
 NEXT Next
 INVARIANTS KeepInv BalanceSheetInv IncomeInv EquityInv TxBalanceInv FilterInv CompileInv SortedInv ExpectInv
